@@ -231,6 +231,9 @@ def run_check(prop, tier, seed):
     scale = float(os.environ.get("VERIF_SCALE", "1"))
     nshards = int(getattr(mod, "NSHARDS", NSHARDS))
     outdir = tempfile.mkdtemp(prefix="vp_out_%s_" % prop)
+    if hasattr(mod, "prepare"):
+        # work shared by all shards (e.g. reference runs in fresh interpreters); inherited through fork
+        mod.prepare(tier, seed, outdir)
     mp = multiprocessing.get_context("fork")
     procs = []
     for s in range(nshards):
